@@ -39,4 +39,5 @@ def main():
             emit(["err"] if c["kind"] != "lvl" else [["err"], [], []])
 
 
-main()
+if __name__ == "__main__":
+    main()
